@@ -255,13 +255,18 @@ Example C43_nonvacuous2 :
   units_init base_units [("s", KNum (2 # 1))]%Q = Err NotImplErr /\
   units_init base_units [("Pa", KNum (2 # 1))]%Q = Err ValueErr /\
   (exists fields, In ("SolidConstants", fields) class_fields /\ assoc "porosity" fields <> None) /\
-  (exists c c',
-     make_constants (QOps (3 # 1)) derived_table other_attrs
-       [("m", 2 # 1); ("s", 1); ("kg", 1 # 8); ("K", 1); ("mol", 1); ("rad", 1)]%Q
-       [("permeability", "m^2")] [("permeability", 12 # 1)]%Q = Ok c /\
-     to_units (QOps (3 # 1)) derived_table other_attrs
-       [("m", 1 # 2); ("s", 1); ("kg", 1); ("K", 1); ("mol", 1); ("rad", 1)]%Q
-       [("permeability", "m^2")] c = Ok c' /\ attrs c' = [("permeability", 48 # 1)]%Q).
+  match make_constants (QOps (3 # 1)) derived_table other_attrs
+          [("m", 2 # 1); ("s", 1); ("kg", 1 # 8); ("K", 1); ("mol", 1); ("rad", 1)]%Q
+          [("permeability", "m^2")] [("permeability", 12 # 1)]%Q with
+  | Ok c =>
+      match to_units (QOps (3 # 1)) derived_table other_attrs
+              [("m", 1 # 2); ("s", 1); ("kg", 1); ("K", 1); ("mol", 1); ("rad", 1)]%Q
+              [("permeability", "m^2")] c with
+      | Ok c' => attrs c'
+      | _ => []
+      end
+  | _ => []
+  end = [("permeability", 48 # 1)]%Q.
 Proof.
   split; [vm_compute; eexists; reflexivity|].
   split; [vm_compute; reflexivity|]. split; [vm_compute; reflexivity|].
@@ -269,5 +274,5 @@ Proof.
   - destruct (assoc "SolidConstants" class_fields) as [f|] eqn:E; [|vm_compute in E; discriminate].
     exists f. split; [now apply assoc_In|]. vm_compute in E. injection E as <-.
     vm_compute. discriminate.
-  - vm_compute. do 2 eexists. repeat split.
+  - vm_compute. reflexivity.
 Qed.
